@@ -15,6 +15,7 @@ RULE = ("case = (n_frames, n_atoms, history of <=10 operations from {set vectors
         "down to 1e-3), per-frame variation; oracle = float64 model of (lengths, angles) per frame + geometric identities of the "
         "reported vectors (norms, mutual angles, a||x, b in xy, positive volume, det = abc*sqrt(1-sum cos^2+2 prod cos)); "
         "non-trivial = three distinct angles and (a rotated description or >=2 assignments)")
+RULE += ('; widened: the save+load step also covers rst7 / ncrst (numbered files per frame) and dtr; vector descriptions mirrored, axes-permuted or upper-triangular')
 QUICK = {"examples": 400, "shards": 12, "budget_s": 100}
 THOROUGH = {"examples": 8000, "shards": 16, "budget_s": 1500}
 ASSUMPTIONS = ["angle tolerance 3e-4 deg + the effect of mdtraj's documented snap of |component| < 1e-6 nm to zero; lengths 4e-6 relative",
